@@ -2,7 +2,7 @@
 # seed_check.sh <seeded-dir> <ID> [tier] : applies the seeded patch to /repo, runs the check, reverts.
 D=$1; ID=$2; TIER=${3:-quick}
 cd /repo && git apply $D/patch.diff || { echo "patch does not apply"; exit 2; }
-cd /verif && ./check $ID $TIER > /tmp/seedcheck.log 2>&1; RC=$?
+cd /verif && VERIF_KEEP_EVIDENCE=1 ./check $ID $TIER > /tmp/seedcheck.log 2>&1; RC=$?
 git -C /repo checkout -- . 
 grep -E "VIOLATION|KNOWN-FINDING|INCONCLUSIVE|NOT-REPRODUCED|ENGINE-MISMATCH|counterexample" /tmp/seedcheck.log | head -8
 echo "check exit=$RC"
